@@ -175,18 +175,24 @@ def gen_shapes(tier, seed):
                                                     dict(pos=[mt[1]], kw=[kt[1], req]),
                                                     dict(pos=[mt[0]])],
                                      call=dict(args=[0], kw=kwc)))
-    total = len(shapes) + len(fam2) + len(fam3) + len(fam4)
+    # family 5: four methods, two positions, four DISTINCT first-position types (all four layers of a chain occupied)
+    fam5 = []
+    for perm in itertools.permutations(range(n2 + 1)):
+        for second in itertools.product(range(n2 + 1), repeat=4):
+            fam5.append(dict(n=n2, methods=[dict(pos=[a, b]) for a, b in zip(perm, second)], call=dict(args=[0, 1])))
+    total = len(shapes) + len(fam2) + len(fam3) + len(fam4) + len(fam5)
     if tier == "quick":
         sampled = True
         rng.shuffle(fam2)
         rng.shuffle(fam3)
         rng.shuffle(fam4)
         rng.shuffle(shapes)
-        shapes = shapes[:110] + fam2[:400] + fam3[:100] + fam4[:100]
+        rng.shuffle(fam5)
+        shapes = shapes[:110] + fam2[:400] + fam3[:100] + fam4[:100] + fam5[:260]
     else:
         rng.shuffle(fam2)
         sampled = True
-        shapes = shapes + fam2[:6000] + fam3 + fam4
+        shapes = shapes + fam2[:6000] + fam3 + fam4 + fam5
         # four methods, two positions (sample)
         for _ in range(1500):
             mt = [rng.choice(pool) for _ in range(4)]
